@@ -820,7 +820,7 @@ def stream_c20(stream, seed, tier, pid, chk):
         lines.append(f"# bytes={len(outs[0][1])}")
     # (2) CLI runs: CNF (+DRAT), WCNF, FlatZinc (+DRCP proof and .lits), with statistics
     for i in range(n_cases):
-        kind = r.choice(["cnf", "wcnf", "fzn", "fzn", "fznproof", "fznproof"])
+        kind = r.choice(["cnf", "wcnf", "wcnfbig", "wcnfbig", "fzn", "fzn", "fznproof", "fznproof"])
         cid = f"{seed}-{i}"
         extra = []
         proof_files = []
@@ -830,6 +830,21 @@ def stream_c20(stream, seed, tier, pid, chk):
             path = os.path.join(work, f"r{i}.cnf")
             proof_files = ["proof.drat"]
             extra = ["--proof-path", "proof.drat"]
+        elif kind == "wcnfbig":
+            # many soft clauses with distinct weights: the order in which the objective terms reach
+            # the encoder shows in the search (o-lines, statistics, model)
+            n = r.randint(6, 12)
+            weights = r.sample(range(1, 60), n)
+            soft = [(weights[v - 1], [v if r.random() < 0.5 else -v]) for v in range(1, n + 1)]
+            hard = []
+            for _ in range(n + r.randint(0, n)):
+                vs = r.sample(range(1, n + 1), min(3, n))
+                hard.append([v if r.random() < 0.5 else -v for v in vs])
+            top = sum(w for w, _ in soft) + 1
+            text = f"p wcnf {n} {len(hard) + len(soft)} {top}\n" + "".join(
+                " ".join(map(str, [w] + c + [0])) + "\n" for w, c in [(top, c) for c in hard] + soft)
+            path = os.path.join(work, f"r{i}.wcnf")
+            extra = ["-s"]
         elif kind == "wcnf":
             n, hard, soft, unitw = gen_wcnf(r)
             top = sum(w for w, _ in soft) + 1
